@@ -118,7 +118,7 @@ def _seq(e, groups, env, single=None):
 
 
 def rule_layout(ctx):
-    r = RuleResult("C11-LAYOUT", "the planner's layouts satisfy the matmul contract", 6)
+    r = RuleResult("C11-LAYOUT", "the planner's layouts satisfy the matmul contract", 9)
     f = _plan(ctx)
     groups, a_term, b_term, out = _groups(f)
     have = set(groups.values())
@@ -210,6 +210,51 @@ def rule_layout(ctx):
     else:
         r.violation(key("produced"), f.loc, f"the final permutation assumes the matmul result is laid out as {prod}, "
                     f"but the output reshape produces {want_p}")
+    # (seed C11_1) each reshape is planned under a guard that holds whenever the reshape is needed: a group
+    # that is not exactly one index; for the output also whenever there are size-1 output axes to re-insert
+    for n in walk_local(f.node):
+        if not (isinstance(n, ast.If) and n.orelse and len(n.body) == 1 and isinstance(n.body[0], ast.Assign)
+                and isinstance(n.orelse[0], ast.Assign) and isinstance(n.orelse[0].value, ast.Constant)
+                and n.orelse[0].value.value is None and isinstance(n.body[0].targets[0], ast.Name)):
+            continue
+        val = n.body[0].value
+        iters = {dotted(g.iter) for x in ast.walk(val) if isinstance(x, (ast.GeneratorExp, ast.ListComp))
+                 for g in x.generators if isinstance(g.iter, ast.Name)}
+        gname = [k_ for k_, v in grouped if k_ in iters]
+        if not gname:
+            continue
+        gname = gname[0]
+        uses_single = single is not None and single in {x.id for x in ast.walk(val) if isinstance(x, ast.Name)}
+        t = n.test
+        disj = t.values if isinstance(t, ast.BoolOp) and isinstance(t.op, ast.Or) else [t]
+
+        def is_any_over(e, g_):
+            return isinstance(e, ast.Call) and dotted(e.func) == "any" and e.args and \
+                isinstance(e.args[0], (ast.GeneratorExp, ast.ListComp)) and \
+                dotted(e.args[0].generators[0].iter) == g_ and not e.args[0].generators[0].ifs and \
+                isinstance(e.args[0].elt, ast.Compare) and "len(" in C.unparse(e.args[0].elt) and \
+                isinstance(e.args[0].elt.ops[0], (ast.NotEq, ast.Gt, ast.Lt))
+
+        def is_single(e):
+            if isinstance(e, ast.Name) and e.id == single:
+                return True
+            u = C.unparse(e)
+            return single is not None and u in (f"len({single}) > 0", f"len({single}) != 0", f"len({single}) >= 1",
+                                               f"bool({single})", f"{single} != []")
+        kk = key(f"reshape-guard:{n.body[0].targets[0].id}")
+        probs = []
+        if not any(is_any_over(e, gname) for e in disj):
+            probs.append(f"`{C.unparse(t, 70)}` has no disjunct 'some group of `{gname}` is not a single index' over "
+                         f"the groups the shape is computed from")
+        if uses_single and not any(is_single(e) for e in disj):
+            probs.append(f"`{C.unparse(t, 70)}`: the size-1 output axes (`{single}`) are re-inserted by this reshape "
+                         f"only; without `{single}` as a disjunct of its own the reshape is skipped when every group "
+                         f"is a single index, and the result lacks those axes")
+        if probs:
+            r.violation(kk, C.loc(f, n), "; ".join(probs))
+        else:
+            r.ok(kk, C.loc(f, n), f"planned whenever a group of `{gname}` is not one index"
+                 + (f" or `{single}` is non-empty" if uses_single else ""))
     return r
 
 
